@@ -124,9 +124,9 @@ func c17Valid(tier string) []string {
 		out = append(out, gen.Render(p))
 	}
 	s2 := pathsN(forms, 2)
-	k := 40
+	k := 8
 	if tier == "thorough" {
-		k = 4
+		k = 1
 	}
 	for i := 0; i < len(s2); i += k {
 		out = append(out, gen.Render(s2[i]))
@@ -134,7 +134,7 @@ func c17Valid(tier string) []string {
 	atoms := boolAtoms()
 	for hi, h := range reprHosts() {
 		for ai, a := range atoms {
-			if tier == "thorough" || (hi*7+ai)%5 == 0 {
+			if tier == "thorough" || (hi*7+ai)%2 == 0 {
 				out = append(out, gen.Render(relPath(withPred(h, a))))
 			}
 		}
@@ -184,10 +184,8 @@ func c17Valid(tier string) []string {
 		}
 		for n := ar[0]; n <= max; n++ {
 			for pos := 0; pos < n; pos++ {
-				for ni, ne := range nested {
-					if tier != "thorough" && (pos+ni)%2 == 1 {
-						continue
-					}
+				for _, ne := range nested {
+
 					args := make([]string, n)
 					for k := range args {
 						args[k] = fill[k%len(fill)]
